@@ -240,7 +240,13 @@ def _run(ix, R):
             keys = [fmt(fl, x) for x in (wn, sp_, no, ww)]
             okk = all(k_ in keys[i] for i, k_ in enumerate(("'instrument_wngrid'", "'instrument_spectrum'",
                                                              "'instrument_noise'", "'instrument_wnwidth'")))
-            transposed = unparse(v.node) + '.T' in unparse(f.node)
+            # the stacked columns are used transposed (rows = spectral points), wherever the stacking statement lives
+            stacked = fl.tab.atom('call', tuple(v.args), extra=('fn:vstack',))
+            tr = fl.tab.atom('getattr', (stacked, 'T'))
+            cands = [e.value for e in fl.of('return') + fl.of('assign') if isinstance(getattr(e, 'value', None), RF)] + \
+                [a_ for e in fl.of('call') for a_ in e.args if isinstance(a_, RF)]
+            transposed = any(fl.tab.equal(x, tr) for x in cands) and not any(fl.tab.equal(x, stacked) for x in cands
+                                                                             if x is not v.args[0])
             R.check('3.hdf5', 'SIB', site,
                     'columns = (10000/wngrid, spectrum, noise, width converted at wngrid), stacked and transposed to rows',
                     fl.tab.equal(v.args[0], want) and okk and transposed, key=fmt(fl, v.args[0])[:200],
